@@ -244,8 +244,15 @@ def run_config(acc, c, tmpdir, live=False):
             s.bus.arm_cmd({0xFE: f})
             acc.count("unlock_exchange_faults")
         if live:
-            served, exc = run_live(s)
+            hang = {}
+            served, exc = run_live(s, (lambda **kw: hang.update(kw))
+                                   if c["platform"] == "ledger" else None)
             acc.count("live_runs")
+            if "stopped" in hang:
+                acc.count("live_hangups_during_a_stopping_bring_up")
+                if not hang["stopped"]:
+                    acc.violation("manager-kept-running-after-a-bring-up-that-must-stop-it:"
+                                  "client-hung-up", {"config": c}, {"config": c, "live": True})
         else:
             try:
                 s.initialize()
@@ -337,7 +344,7 @@ def unsafe_after_reconnection(acc, c, s, dev, bad):
             return      # the manager stopped: fine
 
 
-def run_live(s):
+def run_live(s, hangup=None):
     """real TCPServer.run() on an ephemeral port + probe client"""
     from comm.server import TCPServer
     sock = socket.socket()
@@ -374,10 +381,52 @@ def run_live(s):
                 time.sleep(0.01)
         else:
             time.sleep(0.005)
+    if served and hangup is not None and t.is_alive():
+        hangup_during_stopping_bringup(s, port, t, hangup)
     if srv.server is not None:
         srv.server.shutdown()
     t.join(5)
     return served, res.get("exc")
+
+
+def hangup_during_stopping_bringup(s, port, t, report):
+    """the manager is serving on real sockets; a request fails on the link; the device that
+    is there afterwards makes the repair's bring-up end in a stop (locked, one retry left);
+    the client of the request that triggers that repair hangs up without reading the
+    answer.  The manager must stop all the same."""
+    import time
+    from ..simdev.transport import Fault
+    dev = s.device
+
+    def ask(line, read=True):
+        cs = socket.create_connection(("127.0.0.1", port), timeout=3)
+        cs.sendall(line)
+        data = None
+        if read:
+            try:
+                data = cs.makefile("rb").readline()
+            except OSError:
+                data = None
+        cs.close()
+        return data
+    req = b'{"command":"blockchainParameters","version":5}\n'
+    s.bus.arm({0: Fault("read_error")})
+    ask(req)
+    s.bus.arm({})
+    dev.pending_link = None
+    dev.mode = MODE_BOOTLOADER
+    dev.unlocked = False
+    dev.retries = 1
+    s.bus.exchange_hook = lambda bus, apdu: time.sleep(0.03)
+    try:
+        ask(req, read=False)
+    except OSError:
+        pass
+    deadline = time.time() + 4
+    while t.is_alive() and time.time() < deadline:
+        time.sleep(0.02)
+    s.bus.exchange_hook = None
+    report(stopped=not t.is_alive())
 
 
 def install_supports_contract(acc):
